@@ -242,6 +242,7 @@ pub fn gen_c10(rc: &RunCtx, allow_f10: bool) -> WriterCase {
         max_points_knob_off: 3000,
         custom_xml: true,
         small: false,
+        big_permille: 5,
     };
     let mut prog = gen_program(rc.run_seed, &cfg);
     let mut r = Rng::stream(rc.run_seed, "invalid");
@@ -368,7 +369,7 @@ impl Prop for C10 {
     }
     fn plan(&self, tier: Tier) -> Plan {
         match tier {
-            Tier::Quick => Plan { runs: 5000, time_box_s: None, isolation: Isolation::Threads },
+            Tier::Quick => Plan { runs: 6000, time_box_s: None, isolation: Isolation::Threads },
             Tier::Thorough => Plan { runs: 600_000, time_box_s: Some(480), isolation: Isolation::Threads },
         }
     }
